@@ -24,7 +24,7 @@ class PParams(base.Base):
 
 @struct.dataclass
 class POut(base.Base):
-    a: jax.Array  # int32[3] = (producer id, seq, digest after the step)
+    a: jax.Array  # int32[4] = (producer id, seq, digest after the step, episode)
 
 
 def _bits(x):
@@ -82,7 +82,7 @@ class ProbeNode(BaseNode):
         return PState(cnt=jnp.int32(0), dig=jnp.int32(17 + self.nid))
 
     def init_output(self, rng=None, graph_state=None):
-        return POut(a=jnp.array([self.nid, -1, 0], dtype=jnp.int32))
+        return POut(a=jnp.array([self.nid, -1, 0, -1], dtype=jnp.int32))
 
     def step(self, step_state: base.StepState):
         ss = step_state
@@ -105,7 +105,7 @@ class ProbeNode(BaseNode):
             d = _mix(d, i.data.a)
             ins[name] = dict(seq=seqn, ts_sent=jnp.asarray(i.ts_sent, jnp.float32), ts_recv=jnp.asarray(i.ts_recv, jnp.float32), a=i.data.a)
         new_rng, _sub = jax.random.split(ss.rng)
-        out = POut(a=jnp.stack([jnp.asarray(ss.params.nid, jnp.int32), jnp.asarray(ss.seq, jnp.int32), d]))
+        out = POut(a=jnp.stack([jnp.asarray(ss.params.nid, jnp.int32), jnp.asarray(ss.seq, jnp.int32), d, jnp.asarray(ss.eps, jnp.int32)]))
         new_state = PState(cnt=ss.state.cnt + 1, dig=d)
         if self.trace is not None:
             row = dict(eps=jnp.asarray(ss.eps, jnp.int32), seq=jnp.asarray(ss.seq, jnp.int32), ts=jnp.asarray(ss.ts, jnp.float32), rng=ss.rng,
